@@ -720,13 +720,17 @@ pub fn c20(o: &Oracle, _thorough: bool, _seed: u64, rep: &Report) {
             if got["res"] != hilo(e) || got["stripped"] != hilo(c.w) {
                 viol(rep, ev.clone(), json!({"res": hilo(e), "stripped": hilo(c.w)}), "marking does not set exactly the top bits / stripping does not return the card");
             }
-            // accessors read the same on the marked word
+            // accessors read the same on the marked word as on the card (code against code: what they read on
+            // the card is C10's statement)
             let acc = observe(&json!({"op":"acc","w":hilo(e)}));
-            let exp = json!({"rank": c.rank_name, "suit": c.suit_name, "prime": c.prime, "rank_bit": c.rank_bit, "suit_bit": c.suit_bit,
-                             "rank_char": c.rank_char as u32, "suit_char": c.suit_char as u32, "suit_letter": c.suit_letter as u32});
-            for (k, v) in exp.as_object().unwrap() {
+            let own = observe(&json!({"op":"acc","w":hilo(c.w)}));
+            let mut exp = serde_json::Map::new();
+            for k in ["rank", "suit", "prime", "rank_bit", "rank_flag", "suit_bit", "suit_flag", "rank_char", "suit_char", "suit_letter"] {
+                exp.insert(k.to_string(), own[k].clone());
+            }
+            for (k, v) in exp.iter() {
                 if &acc[k] != v {
-                    viol(rep, json!({"op":"acc","w":hilo(e)}), exp.clone(), "an accessor reads differently on a marked word");
+                    viol(rep, json!({"op":"acc","w":hilo(e)}), Value::Object(exp.clone()), "an accessor reads differently on a marked word than on the card");
                     break;
                 }
             }
@@ -780,12 +784,17 @@ pub fn c20(o: &Oracle, _thorough: bool, _seed: u64, rep: &Report) {
                 let by_mark = e.windows(2).all(|p| key(p[0]) >= key(p[1]));
                 match got {
                     Ok((c, g)) => {
-                        if c != e || g != e || !by_mark {
+                        // numerically the marks dominate (that is C20, and what `by_mark` says of the word order);
+                        // that the containers sort by the numeric order is C11's statement: advisory here
+                        if !by_mark {
                             viol(rep, json!({"op":"sort","pre":hilo_arr(&w)}), json!({"copy": hilo_arr(&e), "inplace": hilo_arr(&e)}),
-                                 "sorting a hand with marked cards does not put quads before trips before pair before unmarked cards");
+                                 "the numeric order of marked and unmarked words does not put quads before trips before pair before unmarked cards");
+                        } else if c != e || g != e {
+                            advise(rep, json!({"op":"sort","pre":hilo_arr(&w)}), json!({"copy": hilo_arr(&e), "inplace": hilo_arr(&e)}),
+                                   "a container does not sort marked cards first (sorting is C11's statement)");
                         }
                     }
-                    Err(_) => viol(rep, json!({"op":"sort","pre":hilo_arr(&w)}), json!({"copy": hilo_arr(&e)}), "sort unwound"),
+                    Err(_) => advise(rep, json!({"op":"sort","pre":hilo_arr(&w)}), json!({"copy": hilo_arr(&e)}), "sort unwound (C11)"),
                 }
                 cases += 1;
             }
